@@ -5,5 +5,5 @@ cd "$(dirname "$0")"
 export GOFLAGS=-mod=mod GOPROXY=off GOSUMDB=off GOTOOLCHAIN=local
 mkdir -p bin evidence
 go build -tags verif -o bin/verif ./cmd/verif && go build -tags verif -o bin/drv ./cmd/drv
-go build ./...
+go build -tags verif ./...
 echo setup ok
